@@ -400,6 +400,46 @@ func c16(c *core.Ctx) {
 						}
 					}
 				}
+				// a string parameter of a private helper: look at what every caller passes
+				if fmCall == nil && fm != nil {
+					root := fn
+					for root.Parent() != nil {
+						root = root.Parent()
+					}
+					if par, isPar := core.ResolveFree(fm).(*ssa.Parameter); isPar && methodParamOfRoot(fn) == nil {
+						idx := -1
+						for i, pp := range root.Params {
+							if pp == par {
+								idx = i
+							}
+						}
+						allSprintf := idx >= 0
+						nCallers := 0
+						var one *ssa.Call
+						for _, caller := range p.LibFuncs("") {
+							for _, cs := range core.CallsIn(caller, func(_ *ssa.Call, ci core.CallInfo) bool { return ci.Static == root }) {
+								nCallers++
+								ok := false
+								if idx >= 0 && idx < len(cs.Call.Args) {
+									for _, o := range core.Origins(cs.Call.Args[idx]) {
+										if sc, _, isCall := core.CallResult(o); isCall && core.InfoOf(&sc.Call).Is("fmt.Sprintf") {
+											ok = true
+											one = sc
+										}
+									}
+								}
+								if !ok {
+									allSprintf = false
+								}
+							}
+						}
+						if allSprintf && nCallers > 0 {
+							fmCall = one
+						} else if nCallers > 0 {
+							why = "FullMethod is a string parameter that a caller fills with something other than \"/<service>/<method>\" (e.g. the mux pattern, which contains the base path)"
+						}
+					}
+				}
 				if call := fmCall; call != nil {
 					format, _ := core.ConstString(call.Call.Args[0])
 					args, unp := core.VariadicArgs(call.Call.Args[1])
@@ -630,6 +670,17 @@ func methodParamOfRoot(fn *ssa.Function) *ssa.Parameter {
 	root := fn
 	for root.Parent() != nil {
 		root = root.Parent()
+	}
+	// only a client entry point (ctx, *grpc.StreamDesc, method string, ...CallOption) receives the RPC's
+	// method name from the caller; a string parameter of any other function is whatever its callers computed
+	hasDesc := false
+	for _, pp := range root.Params {
+		if core.TypeStr(pp.Type()) == "*"+grpcPkg+".StreamDesc" {
+			hasDesc = true
+		}
+	}
+	if !hasDesc || root.Signature.Recv() == nil || !root.Signature.Variadic() {
+		return nil
 	}
 	for _, pp := range root.Params {
 		if core.TypeStr(pp.Type()) == "string" {
